@@ -106,7 +106,10 @@ def call_shapes(params, star, kw, tier):
     """[(positional values tuple, keyword dict)] over the value alphabet; one slot deviates from GOOD at a time."""
     names = [p[0] for p in params]
     npositional = sum(1 for p in params if p[1] in 'pf')
-    kwnames = names + ['zz']
+    # surplus keywords: a name no signature uses, and a name other signatures decorated in the same process use for a named
+    # parameter (it must still be treated as surplus here)
+    foreign = next((n for n in ('f0', 'k0', 'f1', 'k1', 'p0') if n not in names), 'f9')
+    kwnames = names + ['zz', foreign]
     out = []
     maxpos = npositional + (2 if star else 1)
     ksubsets = []
